@@ -48,6 +48,10 @@ structure Params where
   injectorRelease : List Field
   /-- micro-steps of letting go of a preventer -/
   preventerRelease : List Field
+  /-- alternative micro-step sequences of an injector whose `Drop::drop` body is cut short by a
+      panic of a call-count verifier dropped inside it (the rest of the body is skipped, the
+      fields are still dropped in order) -/
+  injectorPanicPaths : List (List Field)
   deriving Repr, DecidableEq
 
 def takesLock (p : Params) : Kind → Bool
@@ -58,10 +62,16 @@ def releaseOrder (p : Params) : Kind → List Field
   | Kind.injector => p.injectorRelease
   | Kind.preventer => p.preventerRelease
 
+/-- the micro-step sequence a release follows: the normal one, or (injector, not already
+    unwinding) one of the panic paths -/
+def chosenOrder (p : Params) (k : Kind) (how : How) : Option Nat → Option (List Field)
+  | none => some (releaseOrder p k)
+  | some i => if k = Kind.injector ∧ how = How.drop then p.injectorPanicPaths[i]? else none
+
 inductive Action where
   | acquire (t : Nat) (k : Kind)          -- `InjectorPP::new()` / `InjectorPP::prevent()` returns
   | install (t : Nat)                     -- `when_called(shared).will_execute(fake_t)`
-  | beginRelease (t : Nat) (how : How)    -- scope exit or unwinding starts
+  | beginRelease (t : Nat) (how : How) (alt : Option Nat)   -- scope exit or unwinding starts; `alt` picks a panic path
   | micro (t : Nat)                       -- next micro-step of the release
   deriving Repr, DecidableEq
 
@@ -80,9 +90,12 @@ def step (p : Params) (s : LState) : Action → Option LState
     match s.pcs t with
     | Pc.holding Kind.injector _ => some { s with fn := some t, pcs := setPc s.pcs t (Pc.holding Kind.injector true) }
     | _ => none
-  | Action.beginRelease t how =>
+  | Action.beginRelease t how alt =>
     match s.pcs t with
-    | Pc.holding k inst => some { s with pcs := setPc s.pcs t (Pc.releasing k inst (releaseOrder p k) how) }
+    | Pc.holding k inst =>
+      match chosenOrder p k how alt with
+      | some ord => some { s with pcs := setPc s.pcs t (Pc.releasing k inst ord how) }
+      | none => none
     | _ => none
   | Action.micro t =>
     match s.pcs t with
@@ -124,16 +137,19 @@ def fakeLive : Pc → Bool
   | Pc.releasing _ true rest _ => rest.contains Field.guards
   | _ => false
 
+/-- panic paths of a `Drop::drop` body followed by the field drops -/
+def panicPathsOf (body fields : List Field) : List (List Field) :=
+  (List.range body.length).filterMap fun i =>
+    if body[i]? = some Field.verifiers then some (body.take (i + 1) ++ fields) else none
+
 /-- the parameters as the source has them -/
 def srcParams : Params :=
   { newTakesLock := Generated.Layout.newTakesLock && Generated.Layout.sameLockStatic,
     preventTakesLock := Generated.Layout.preventTakesLock && Generated.Layout.sameLockStatic && Generated.Layout.preventerHoldsGuard,
     poisonRecovered := Generated.Layout.poisonRecovered,
-    injectorRelease :=
-      (match Generated.Layout.guardDropOrder with
-       | DropOrderSrc.explicitNewestFirst => [Field.guards]      -- `Drop::drop` runs before any field is dropped
-       | DropOrderSrc.vecFieldDrop => []
-       | DropOrderSrc.unknown => [Field.other]) ++ Generated.Layout.injectorFields,
-    preventerRelease := [Field.lock] }
+    -- `Drop::drop` runs before any field is dropped
+    injectorRelease := Generated.Layout.injectorDropBody ++ Generated.Layout.injectorFields,
+    preventerRelease := [Field.lock],
+    injectorPanicPaths := panicPathsOf Generated.Layout.injectorDropBody Generated.Layout.injectorFields }
 
 end Inj.Lock
